@@ -777,3 +777,74 @@ Lemma example_blocks :
    (None, Some (lit "Cool web site"%string), None)] /\
   all_from_dir ex_fes = true.
 Proof. vm_compute. repeat split; reflexivity. Qed.
+
+(* ================= end to end: the UMN listing IS the reference reading ================= *)
+Lemma all_from_dir_tag l : all_from_dir (tag_origin l) = true.
+Proof. induction l as [|[n e] r IH]; [reflexivity|]. cbn. exact IH. Qed.
+
+Lemma child_sel_inj w a b : child_sel w a = child_sel w b -> a = b.
+Proof. unfold child_sel. intros H. apply app_inv_head in H. now inversion H. Qed.
+
+Lemma cap_dropped_in plf mode w names s :
+  In s (cap_dropped plf mode w names) ->
+  exists n ci, In n names /\ child_entry w n = Ok ci /\ umn_append plf mode (w_cap w n) n ci = Ok None /\
+               s = e_selector (ci_entry ci).
+Proof.
+  unfold cap_dropped. intros H. apply in_flat_map in H as (n & I & H). exists n.
+  destruct (child_entry w n) as [ci|] eqn:C; [|destruct H]. exists ci.
+  destruct (umn_append plf mode (w_cap w n) n ci) as [[e|]|] eqn:A.
+  - destruct H.
+  - destruct H as [H|[]]. repeat split; trivial. now symmetry.
+  - destruct H.
+Qed.
+
+Section EndToEnd.
+  Variable plf : option str -> str -> result (list lentry).
+  Variables (fx : fixes) (alts : list alt) (mode : stripmode) (w : world).
+  Hypothesis Fd : fx_dash_hides fx = true.
+  Hypothesis Fr : fx_remove_safe fx = true.
+  Hypothesis Fh : fx_hidden_stays fx = true.
+  (* every child is reported under its own selector, and no .cap file moves it elsewhere *)
+  Hypothesis Hsel : forall n ci, child_entry w n = Ok ci -> e_selector (ci_entry ci) = child_sel w n.
+  Hypothesis Hcap : forall n e, umn_child plf mode w n = Ok (Some e) -> e_selector e = child_sel w n.
+
+  Theorem listing_is_reference_reading enum l :
+    NoDup enum -> umn_listing_gen plf fx alts mode w enum = Ok l ->
+    exists files links fes,
+      umn_scan plf fx alts w (enum_order fx enum) [] [] = Ok (files, links) /\
+      prep_entries (fx_skip_child fx) (umn_child plf mode w) (sort_names files) = Ok fes /\
+      l = isort oentry_leb
+            (apply_entries_from (cap_dropped plf mode w (sort_names files)) links (tag_origin fes)).
+  Proof.
+    intros ND H. unfold umn_listing_gen in H.
+    destruct (umn_scan plf fx alts w (enum_order fx enum) [] []) as [[files links]|] eqn:S; simpl in H; [|discriminate].
+    pose proof (umn_scan_files plf fx alts w _ _ _ _ _ S) as Ef. simpl in Ef.
+    destruct (prep_entries _ _ _) as [fes|] eqn:P; simpl in H; [|discriminate].
+    exists files, links, fes. split; [reflexivity|]. split; [exact P|].
+    pose proof (prep_entries_names _ _ _ _ P) as Nm.
+    assert (NDf : NoDup (map fst fes)).
+    { rewrite Nm. subst files. apply NoDup_filter', sort_names_NoDup, NoDup_filter'.
+      eapply Permutation_NoDup; [apply enum_order_perm | exact ND]. }
+    assert (Sel : forall n e, In (n, e) fes -> e_selector e = child_sel w n).
+    { intros n e I. apply Hcap. now destruct (prep_entries_In _ _ _ _ _ _ P I). }
+    assert (Sels : map (fun oe : oentry => e_selector (snd oe)) (tag_origin fes) = map (child_sel w) (map fst fes)).
+    { clear - Sel. induction fes as [|[n e] r IH]; [reflexivity|]. cbn.
+      rewrite (Sel n e (or_introl eq_refl)). f_equal. apply IH. intros n' e' I. apply Sel. now right. }
+    assert (NDsel : NoDup (map (fun oe : oentry => e_selector (snd oe)) (tag_origin fes))).
+    { rewrite Sels. apply FinFun.Injective_map_NoDup; [|exact NDf]. intros a b. apply child_sel_inj. }
+    assert (NDn : NoDup (dir_names (tag_origin fes))) by now rewrite dir_names_tag.
+    rewrite (merge_is_apply_entries fx Fd Fr Fh (tag_origin fes) (all_from_dir_tag fes) NDsel NDn) in H.
+    - simpl in H. now inversion H.
+    - intros s Is. apply cap_dropped_in in Is as (n & ci & In_ & C & A & ->).
+      destruct (dict_lookup (tag_origin fes) (e_selector (ci_entry ci))) as [m|] eqn:D; [|reflexivity]. exfalso.
+      rewrite (dict_is_find _ _ (all_from_dir_tag fes) NDsel), find_target_sels in D.
+      apply first_some_hit_in in D.
+      assert (Im : exists e, In (m, e) fes /\ e_selector e = e_selector (ci_entry ci)).
+      { clear - D. induction fes as [|[k e] r IH]; [destruct D|]. cbn in D. destruct D as [D|D].
+        - inversion D. subst. exists e. split; [now left | reflexivity].
+        - destruct (IH D) as (e' & I & E). exists e'. split; [now right | exact E]. }
+      destruct Im as (e & Ie & Ee). rewrite (Sel m e Ie), (Hsel n ci C) in Ee. apply child_sel_inj in Ee. subst m.
+      destruct (prep_entries_In _ _ _ _ _ _ P Ie) as [_ Cn]. unfold umn_child in Cn. rewrite C in Cn. simpl in Cn.
+      rewrite A in Cn. discriminate.
+  Qed.
+End EndToEnd.
